@@ -69,6 +69,9 @@ impl TombstoneLog {
     ) -> Result<Self> {
         let mut recovered = vec![];
 
+        // Global page number across all partitions, so that recovered addresses are log-absolute.
+        let mut page = 0;
+
         for partition in partitions.iter() {
             for offset in (0..partition.size()).step_by(PAGE) {
                 tracing::trace!(offset, "[tombstone log]: recover at");
@@ -83,13 +86,15 @@ impl TombstoneLog {
                     let tombstone = Tombstone::read(buf);
                     if tombstone.sequence > seq {
                         seq = tombstone.sequence;
-                        addr = slot * Tombstone::SERIALIZED_LEN;
+                        addr = page * PAGE + slot * Tombstone::SERIALIZED_LEN;
                     }
                     if tombstone.sequence == 0 {
                         continue;
                     }
                     recovered.push((tombstone, addr));
                 }
+
+                page += 1;
             }
         }
 
